@@ -9,7 +9,7 @@ git -C /repo worktree add -q --detach $wt HEAD || exit 9
 trap 'git -C /repo worktree remove --force '$wt' 2>/dev/null' EXIT
 cd $wt
 pkg=$(grep -m1 '^package ' $d/demo_test.go | awk '{print $2}')
-case "$pkg" in tcell|tcell_test) sub=. ;; views|views_test) sub=views ;; terminfo|terminfo_test) sub=terminfo ;; encoding) sub=encoding ;; *) sub=. ;; esac
+case "$pkg" in tcell|tcell_test) sub=. ;; views|views_test) sub=views ;; terminfo|terminfo_test) sub=terminfo ;; encoding) sub=encoding ;; extended|extended_test) sub=terminfo/extended ;; base) sub=terminfo/base ;; *) sub=. ;; esac
 tname=$(grep -o 'func Test[A-Za-z0-9_]*' $d/demo_test.go | head -1 | awk '{print $2}')
 res="applies=no"
 if git apply $d/patch.diff 2>/dev/null || { git apply -3 $d/patch.diff 2>/dev/null && git reset -q; }; then res="applies=yes"; else echo "$d $res"; exit 1; fi
